@@ -205,13 +205,13 @@ func H_C07_WrkRecord() {
 	// counters match what is stored (C08)
 	wc, _ := we.K.GetWrkChain(we.Ctx, pre.ID)
 	all := we.K.GetAllWrkChainBlockHashes(we.Ctx, pre.ID)
-	rt.Assert("C08.num-matches-store", wc.NumBlocks == uint64(len(all)))
-	rt.Assert("C08.num=min(n+1,limit)", wc.NumBlocks == rt.IteU64(pruned, n, n+1))
-	rt.Assert("C08.within-limit", wc.NumBlocks <= pre.L)
-	rt.Assert("C08.last=new", wc.Lastblock == msg.Height)
+	rt.Assert("INV.num-matches-store", wc.NumBlocks == uint64(len(all)))
+	rt.Assert("INV.num=min(n+1,limit)", wc.NumBlocks == rt.IteU64(pruned, n, n+1))
+	rt.Assert("INV.within-limit", wc.NumBlocks <= pre.L)
+	rt.Assert("INV.last=new", wc.Lastblock == msg.Height)
 	if len(all) > 0 {
-		rt.Assert("C08.lowest=first-in-store", wc.LowestHeight == all[0].Height)
-		rt.Assert("C08.last-in-store=new", all[len(all)-1].Height == msg.Height)
+		rt.Assert("INV.lowest=first-in-store", wc.LowestHeight == all[0].Height)
+		rt.Assert("INV.last-in-store=new", all[len(all)-1].Height == msg.Height)
 	}
 	for i := 1; i < len(all); i++ {
 		rt.Assert("C18.list-ascending", all[i-1].Height < all[i].Height)
